@@ -599,6 +599,7 @@ def r6_helpers(ctx):
     sub = type(ctx)(ctx.prop, ctx.facts)
     sub.guard("R14.2", "flatten", c14.r2_flatten, sub)
     sub.guard("R14.3", "constructors", c14.r3_constructors, sub)      # gradient tensors are built with Tensor::{triple,quadruple}: shape = nesting
+    sub.guard("R14.1", "reshape", c14.r1_r2_reshape, sub)             # flat <-> spatial transitions through skip / loop connections go through Tensor::reshape
     bad = [o for o in sub.obligations if o["status"] != "ok"]
     for o in bad:
         ctx.bad("R08.6", "helper:" + o["instance"], o["key"].split("/", 3)[-1], o["where"], o["detail"])
